@@ -32,11 +32,20 @@ theorem stack_guard (fuel : Nat) (g : G) (f : Frame) (hpc : f.pc < f.code.size)
   simp [evalLoop, this, hin, hfull]
 
 /-- the counter seen by the guard is the old one plus one: a dispatch is never free -/
-theorem dispatch_charges_one (g : G) (c : Nat) (hc : c < g.ctxs.size) : getOps (addOps g c 1) c = getOps g c + 1 := by
-  simp [getOps, addOps, hc, Array.getElem_modify]
+theorem dispatch_charges_one (g : G) (c : Nat) (hc : c < g.ctxs.size) (hroom : getOps g c < DS.Roll.maxInt64) :
+    getOps (addOps g c 1) c = getOps g c + 1 := by
+  simp only [getOps] at hroom
+  simp [getOps, addOps, hc, Array.getElem_modify, satAdd]
+  intro h; simp only [getElem!_pos, hc] at hroom; omega
 
-theorem charge_n (g : G) (c : Nat) (n : Int) (hc : c < g.ctxs.size) : getOps (addOps g c n) c = getOps g c + n := by
-  simp [getOps, addOps, hc, Array.getElem_modify]
+/-- a charge is never lost: the counter grows by the charge, or sits at MaxInt64 (which is above every budget) -/
+theorem charge_n (g : G) (c : Nat) (n : Int) (hc : c < g.ctxs.size) :
+    getOps (addOps g c n) c = getOps g c + n ∨ getOps (addOps g c n) c = DS.Roll.maxInt64 := by
+  simp only [getOps, addOps, Array.getElem!_eq_getD, Array.getD_eq_getD_getElem?, Array.getElem?_modify, hc, Array.getElem?_eq_getElem,
+    if_true, Option.map_some, Option.getD_some, satAdd]
+  split
+  · right; rfl
+  · left; rfl
 
 /-! ### capacities -/
 
